@@ -197,9 +197,11 @@ impl HistoryCase {
             check_end_names: r["check_end_names"].as_bool().unwrap_or(true),
             capacity: r["capacity"].as_u64().unwrap_or(0) as usize,
         };
+        let default_opts = vec![json!({"text_identifier": "$text", "attribute_prefix": "@", "derive": "Serialize, Deserialize", "sort_by_name": false}),
+            json!({"text_identifier": "$text", "attribute_prefix": "@", "derive": "Serialize, Deserialize", "sort_by_name": true})];
         let opts = v["options"]
             .as_array()
-            .ok_or("options")?
+            .unwrap_or(&default_opts)
             .iter()
             .map(|o| OptRec {
                 text_identifier: o["text_identifier"].as_str().unwrap_or("").to_string(),
@@ -210,9 +212,11 @@ impl HistoryCase {
             .collect();
         let mut docs = Vec::new();
         for d in v["documents"].as_array().ok_or("documents")? {
-            let hex = d["hex"].as_str().ok_or("hex")?;
-            let bytes: Vec<u8> = (0..hex.len() / 2).map(|i| u8::from_str_radix(&hex[2 * i..2 * i + 2], 16).unwrap_or(0)).collect();
-            let generated = d["generated"].as_bool().unwrap_or(false);
+            let bytes: Vec<u8> = match d["hex"].as_str() {
+                Some(hex) => (0..hex.len() / 2).map(|i| u8::from_str_radix(&hex[2 * i..2 * i + 2], 16).unwrap_or(0)).collect(),
+                None => d["text"].as_str().ok_or("document without hex or text")?.as_bytes().to_vec(),
+            };
+            let generated = d["generated"].as_bool().unwrap_or(true);
             let dom = if generated { crate::xmlread::read_doc(&bytes) } else { None };
             docs.push(DocInput { dom, bytes });
         }
